@@ -264,9 +264,17 @@ pub fn eval_nl(exps: Vec<Expectation>, qs: &[Q], output: &[u8], mt: &dyn Fn(usiz
             if newline_invariant && output.ends_with(b"\n") {
                 variants.push(("no-final-newline", output[..output.len() - 1].to_vec()));
             }
+            // … and with the stream on STDERR (`output_stream: stderr`, nothing on STDOUT): the judged stream is the selected one
+            variants.push(("on-stderr", output.to_vec()));
             for (name, bytes) in variants {
-                let tc = scrut::testcase::TestCase { title: String::new(), shell_expression: "x".into(), expectations: exps2.clone(), exit_code: None, line_number: 1, config: scrut::config::TestCaseConfig::default_markdown() };
-                let out = scrut::output::Output { stdout: bytes.clone().into(), stderr: vec![].into(), exit_code: scrut::output::ExitStatus::Code(0) };
+                let on_stderr = name == "on-stderr";
+                let config = if on_stderr { scrut::config::TestCaseConfig { output_stream: Some(scrut::config::OutputStreamControl::Stderr), ..scrut::config::TestCaseConfig::default_markdown() } } else { scrut::config::TestCaseConfig::default_markdown() };
+                let tc = scrut::testcase::TestCase { title: String::new(), shell_expression: "x".into(), expectations: exps2.clone(), exit_code: None, line_number: 1, config };
+                let out = if on_stderr {
+                    scrut::output::Output { stdout: vec![].into(), stderr: bytes.clone().into(), exit_code: scrut::output::ExitStatus::Code(0) }
+                } else {
+                    scrut::output::Output { stdout: bytes.clone().into(), stderr: b"noise on the other stream\n".to_vec().into(), exit_code: scrut::output::ExitStatus::Code(0) }
+                };
                 match guarded(|| tc.validate(&out)) {
                     Err(p) => fails.push(("C02:crash".to_string(), format!("TestCase::validate panicked ({name}): {p}"))),
                     Ok(Ok(())) => {
@@ -524,6 +532,50 @@ fn big_case(mk: &ExpectationMaker, prop: &str, rng: &mut Rng) -> CaseRec {
     c
 }
 
+/// lines that keep their carriage return (`keep_crlf`, Cram) against expectations that name it, in the forms the
+/// documentation gives (`Foo\r (escaped)`, `^Foo\r$ (regex)`, the raw line as `equal`): the expected match matrix is
+/// known by construction -- expectation i describes line i and no other -- so the oracles do not depend on what the
+/// real rules say. Variant bit: one expectation is written WITHOUT the CR and must then not match its line.
+fn crlf_case(mk: &ExpectationMaker, prop: &str, idx: u64) -> CaseRec {
+    let words = ["Foo", "Bar", "b a z", "x.y"];
+    let mut r = idx;
+    let mut take = |n: u64| {
+        let v = r % n;
+        r /= n;
+        v as usize
+    };
+    let n = 1 + take(3);
+    let drop_cr = take(2) == 1;
+    let victim = take(3) % n;
+    let mut exps = vec![];
+    let mut out: Vec<u8> = vec![];
+    let mut diag = vec![];
+    for i in 0..n {
+        let w = format!("{}{i}", words[take(4)]);
+        let form = take(3);
+        let named = !(drop_cr && i == victim);
+        let cr_txt = if named { "\\r" } else { "" };
+        let line = match form {
+            0 => format!("{w}{cr_txt} (escaped)"),
+            1 => format!("^{}{cr_txt}$ (regex)", regex::escape(&w)),
+            _ => format!("{w}{} (equal)", if named { "\r" } else { "" }),
+        };
+        match mk.parse(&line) {
+            Ok(e) => exps.push(e),
+            Err(_) => return CaseRec { op: "noop".into(), impl_out: "ok".into(), oracle_fail: vec![], nontrivial: false, tags: vec!["crlf:unparsable".into()] },
+        }
+        diag.push(named);
+        out.extend_from_slice(format!("{w}\r\n").as_bytes());
+    }
+    let qs = vec![QS[0]; n];
+    let d2 = diag.clone();
+    let mtf = move |i: usize, j: usize| i == j && d2[i];
+    let ev = eval(exps, &qs, &out, &mtf);
+    let bits: String = (0..n).flat_map(|i| (0..n).map(move |j| (i, j))).map(|(i, j)| if i == j && diag[i] { '1' } else { '0' }).collect();
+    // the model is run on the matrix the documentation promises; the real diff must agree with it
+    CaseRec { op: op_line(&qs, n, &bits), nontrivial: true, tags: vec!["realised=crlf-lines".into(), format!("crlf:cr-omitted={drop_cr}")], impl_out: ev.impl_out, oracle_fail: filter_fails(prop, ev.fails) }
+}
+
 pub fn run(ctx: &Ctx, prop: &str) {
     let mut sizes = vec![];
     for n in 0..=3 {
@@ -583,6 +635,10 @@ pub fn run(ctx: &Ctx, prop: &str) {
         let len = rng.range(0, 40);
         let v: Vec<u8> = (0..len).map(|_| if rng.chance(1, 4) { b'\n' } else { rng.below(256) as u8 }).collect();
         Some(split_case(prop, &v))
+    });
+    ctx.run_stream("crlf-lines-exhaustive", 3 * 2 * 3 * 12 * 12 * 12, true, |idx| {
+        let mk = maker();
+        Some(crlf_case(&mk, prop, idx))
     });
     ctx.run_stream("real-kinds-random", nrand, false, |idx| {
         let mk = maker();
